@@ -86,8 +86,8 @@ type record struct {
 	want     []Val
 	got      []Val
 	errText  string
-	suspect  bool // the Go comparison saw a mismatch on this execution
-	realOnly bool // the value has reals whose digits TLC does not see
+	suspect  bool  // the Go comparison saw a mismatch on this execution
+	realOnly bool  // the value has reals whose digits TLC does not see
 	src      []Val // the values handed to pdf.Format (scan records of formatter output)
 	pair     int64 // records of the same execution share this number
 }
